@@ -1126,6 +1126,29 @@ def op_x_c16(req):
     return {"fails": fails, "codes": infos, "portable_class": want_cls}
 
 
+def op_x_rewrite(req):
+    """C13: load a bytecode file with xdis on this host and write it back."""
+    x = xd()
+    src = scratch_path("rw_in.pyc")
+    dst = scratch_path("rw_out.pyc")
+    with open(src, "wb") as f:
+        f.write(unhx(req["data"]))
+    if os.path.exists(dst):
+        os.remove(dst)
+    version, ts, magic_int, co, is_pypy, size, sip = x.load.load_module(src)
+    out = {"native": isinstance(co, types.CodeType), "loaded": True}
+    try:
+        x.load.write_bytecode_file(dst, co, magic_int, req.get("ts", 1234567), req.get("size", 4321))
+    except Exception as e:
+        import traceback
+        out["refused"] = "%s: %s" % (type(e).__name__, e)
+        out["tb"] = traceback.format_exc()[-1200:]
+        return out
+    with open(dst, "rb") as f:
+        out["data"] = hx(f.read())
+    return out
+
+
 def exec_objects(req, use_xdis):
     raise NotImplementedError
 
